@@ -2752,6 +2752,24 @@ class AggregateBase(UnitsManaged, Saveable, OpenSystem):
 
         """
 
+        # Boltzmann factors are calculated with kB in internal units;
+        # energies must therefore be read in internal units, too
+        with energy_units("int"):
+            return self._get_DensityMatrix(condition_type=condition_type,
+                            relaxation_theory_limit=relaxation_theory_limit,
+                            temperature=temperature,
+                            relaxation_hamiltonian=relaxation_hamiltonian,
+                            DD=DD)
+
+
+    def _get_DensityMatrix(self, condition_type=None,
+                                 relaxation_theory_limit="weak_coupling",
+                                 temperature=None,
+                                 relaxation_hamiltonian=None, DD=None):
+        """Implementation of get_DensityMatrix (called in internal units)
+
+        """
+
         # aggregate must be built before we call this method
         if not self._built:
             raise Exception("Aggregate must be built before"
